@@ -287,6 +287,41 @@ def run(ctx):
     impl = ctx.impl("C05.py", {"cases": cases})["results"]
     mod = ctx.model(mlines)
     evaluate(ctx, post, impl, mod)
+    grid_sweep(ctx)
+
+
+def grid_sweep(ctx):
+    """every number of directions 8..180 (the property's whole range): the 2D spectrum has exactly N
+    directions k*360/N and integrates back to e(f) - exhaustive, because the grid construction can go
+    wrong for isolated N only"""
+    for method, sm in (("mem", None), ("mem2", "approximate")):
+        case = {"op": "gridsweep", "nmin": 8, "nmax": 180, "method": method}
+        if sm:
+            case["sm"] = sm
+        res = ctx.impl("C05.py", {"cases": [case]})["results"][0]
+        if err_of(res):
+            ctx.oracle_fail("as_frequency_direction_spectrum sweep raised: %s" % res, {"case": case})
+            continue
+        for r in res:
+            n = r.get("n") if isinstance(r, dict) else None
+            ctx.count("gridsweep-%s-%s" % (method, n))
+            ctx.tally("grid sweep N=8..180")
+            rep = {"op": "as_frequency_direction_spectrum", "number_of_directions": n, "method": method,
+                   "solution_method": sm, "result": r}
+            if err_of(r):
+                ctx.oracle_fail("as_frequency_direction_spectrum(%s) raised: %s" % (n, r), rep)
+                continue
+            d = [C.unfx(v) for v in r["direction"]]
+            if len(d) != n or r["shape2d"][-1] != n:
+                ctx.oracle_fail("as_frequency_direction_spectrum(%d, %s) returned %d directions" % (n, method, len(d)), rep)
+                continue
+            if any(abs(d[k] - k * 360.0 / n) > 1e-9 for k in range(n)):
+                ctx.oracle_fail("as_frequency_direction_spectrum(%d): directions are not k*360/N" % n, rep)
+                continue
+            eb = [C.unfx(v) for v in r["e_back"]]
+            if not (C.close(eb[0], 2.0, 1e-9) and C.close(eb[1], 3.0, 1e-9)):
+                ctx.oracle_fail("as_frequency_direction_spectrum(%d, %s): integrating back gives e(f) = %s, not [2, 3]"
+                                % (n, method, eb), rep)
 
 
 def err_of(r):
